@@ -14,7 +14,7 @@ pub static DEF: CheckDef = CheckDef {
     id: "C16",
     families,
     run_case,
-    rule: "shapes: every shape (rank 1..4, dims 1..3) and random shapes up to rank 6: construction from (dims, values), \
+    rule: "(also: a reshaped view and its base indexed alternately under their own dimensions; arrays differing only in the sign of their zeros are equal) shapes: every shape (rank 1..4, dims 1..3) and random shapes up to rank 6: construction from (dims, values), \
            flat vector, zeros and nested arrays (From<Vec<Array>> recursively, with owned and with shared-buffer \
            children), every full multi-index and every flat index against the row-major formula, refusal of zero \
            dimensions / count mismatch / ragged nests / empty nests; macro: static arr! nests of depth 1..4; equality: \
